@@ -123,6 +123,22 @@ theorem gc_deletes_only_old_unkept (norm : Str → Str) (keep : List Str) (old :
 example : gcPrefix (normalize ['d'] ['/', 'x', '/', 'd']) ([['/', 'd', 'a', 't', 'a', '/', 'l']].map (normalize ['d'] ['/', 'x', '/', 'd']))
     (fun _ => true) [['d', 'a', 't', 'a', '/', 'l'], ['d', 'a', 't', 'a', '/', 'o']] = some [['d', 'a', 't', 'a', '/', 'o']] := by decide
 
+/-- **spellings_name_one_file** (repair 8435446) — on the local backend every accepted spelling of a pre-built file's path is compared
+as the listed path it names; on object storage the spelling is left alone (it IS the key) -/
+theorem spellings_name_one_file :
+    referenced true [] [] "data//x.parquet".toList = "data/x.parquet".toList ∧
+    referenced true [] [] "data/./x.parquet".toList = "data/x.parquet".toList ∧
+    referenced true [] [] "/data/sub/../x.parquet".toList = "data/x.parquet".toList ∧
+    referenced true [] [] "./data/x.parquet".toList = "data/x.parquet".toList ∧
+    referenced false [] [] "data//x.parquet".toList = "data//x.parquet".toList := by decide +kernel
+
+/-- canonical paths (what the library itself writes, what a listing returns) are left as they are -/
+theorem referenced_s3_is_normalize (tp real p : Str) : referenced false tp real p = normalize tp real p := by
+  simp [referenced]
+
+/-- what the property excludes: comparing the raw spelling misses the listed file (the code as found) -/
+theorem raw_spelling_misses_listed_file : normalize [] [] "data//x.parquet".toList ≠ "data/x.parquet".toList := by decide +kernel
+
 end DSV.Gc
 
 /-! ### which marker protects which queued file (live transactions; repairs c834a8f, 0f909e5) -/
